@@ -605,7 +605,9 @@ class Engine:
                 r = f(a[1]); st.assume(r > 0); self.axiom_instances += 1
                 return r
             f = self.uf('pow', z3.RealSort(), z3.RealSort(), z3.RealSort())
-            return f(a[0], a[1])
+            r = f(a[0], a[1])
+            st.assume(z3.Implies(a[0] > 0, r > 0)); self.axiom_instances += 1      # a positive base has a positive power
+            return r
         f = self.uf(name, *([z3.RealSort()] * (len(a) + 1)))
         r = f(*a)
         x = a[0] if a else None
@@ -616,6 +618,7 @@ class Engine:
         elif name == 'log':
             ex = self.uf('exp', z3.RealSort(), z3.RealSort())
             st.assume(z3.Implies(x > 0, ex(r) == x)); self.axiom_instances += 1
+            st.assume(z3.And(z3.Implies(x >= 1, r >= 0), z3.Implies(z3.And(x > 0, x <= 1), r <= 0)))      # sign of the logarithm
             if z3.is_app(x) and x.decl().kind() == z3.Z3_OP_DIV:
                 a_, b_ = x.arg(0), x.arg(1)
                 st.assume(z3.Implies(z3.And(a_ > 0, b_ > 0), r == f(a_) - f(b_))); self.axiom_instances += 1
@@ -1083,8 +1086,9 @@ class Engine:
             return self.inline_call(e, f, sp, st)
         return self.contract_call(e, f, sp, st)
 
-    def contract_call(self, e, f, sp, st, ctor_self=None):
-        env, back = self.bind_args(f, e, st) if ctor_self is None else ctor_self
+    def contract_call(self, e, f, sp, st, ctor_self=None, pre_bound=None):
+        if pre_bound is not None: env, back = pre_bound
+        else: env, back = self.bind_args(f, e, st) if ctor_self is None else ctor_self
         cs = st.clone(); cs.env = dict(env); cs.scope = None; cs.ghost = {}
         for gt, gn in sp.globals:
             if ('::' + gn) not in st.env: st.env['::' + gn] = self.fresh_val(gt, 'glob.' + gn, st)
@@ -1801,11 +1805,17 @@ class Verifier(Engine):
                         d1 = self.sv(ls.decreases.expr, q)
                         self.oblige(q, z3.And(d1 < dec0, dec0 >= 0), 'loop%d.decreases' % L.ordinal, 'variant %s decreases and is bounded below' % ls.decreases.text)
             elif status == 'break':
+                p.scope = L.scope
+                for cl in ls.on_exit: self.check_clause(cl, p, 'loop%d.on_exit' % L.ordinal)
                 p.scope = saved_scope; p.loop_old = saved_lo
                 out.append((p, 'normal', None))
             else:
                 out.append((p, status, rv))
         if self.feasible(ex, z3.BoolVal(True)):
+            if ls.on_exit:
+                ex.scope = L.scope
+                for cl in ls.on_exit: self.check_clause(cl, ex, 'loop%d.on_exit' % L.ordinal)
+                ex.scope = saved_scope
             out.append((ex, 'normal', None))
         return out
 
@@ -1978,6 +1988,19 @@ class Verifier(Engine):
                     post.append(c)
             st.assume(z3.Implies(z3.And(*(pre + [st.env[v] - 1 >= lb])), z3.And(*post)))
         for u in lm.uses: self.use_lemma(u, st)
+        # ghost calls: `call r = KEY(args)` binds r to the result of the function under its contract (the callee's
+        # preconditions and validity are obligations of the lemma, its postconditions are what the lemma may use)
+        for (rname, key, argx) in getattr(lm, 'calls', []):
+            f = self.func(key); sp = self.db.funcs.get(key)
+            if sp is None: raise E2Error('lemma %s: no contract for %s' % (name, key))
+            if len(argx) != len(f.params): raise E2Error('lemma %s: %s takes %d arguments' % (name, f.qual, len(f.params)))
+            env = {}
+            for (pn, pt, br), ax in zip(f.params, argx):
+                v = self.sv(ax, st)
+                if pt in INTS and z3.is_real(v): raise E2Error('lemma %s: argument %s of %s must be an integer' % (name, pn, f.qual))
+                if pt == 'double': v = self.to_real(v)
+                env[pn] = v
+            st.env[rname] = self.contract_call(None, f, sp, st, pre_bound=(env, []))
         self.vacuity = getattr(self, 'vacuity', [])
         self.vacuity.append((self.prefix, list(st.pc)))
         for cl in lm.ensures: self.check_clause(cl, st, 'ensures')
